@@ -926,10 +926,22 @@ pub fn expect_with(sc: &XargsScenario, cmd: &[String], cfg: &Config, spec: &TokS
         }
         Mode::Replace(r) => {
             // one run per non-empty line; nothing appended
+            let template: usize = cmd_bytes.iter().map(|a| cost(a)).sum();
             for (i, t) in spec.toks.iter().enumerate() {
                 let mut argv = vec![cmd_bytes[0].clone()];
                 for a in &cmd_bytes[1..] {
                     argv.push(replace_all(a, r.as_bytes(), &t.bytes));
+                }
+                // a line that cannot be passed at all - next to the command it does not fit
+                // under -s, or the substituted command line does not, or one substituted
+                // argument is longer than the kernel takes - ends the run with xargs' own
+                // error; every line before it is a complete non-empty line and has had its run
+                let substituted: usize = argv.iter().map(|a| cost(a)).sum();
+                let over_s = cfg.s.map_or(false, |s| substituted.max(template + cost(&t.bytes)) > s);
+                let over_kernel = cost(&t.bytes) > MAX_ARG_STRLEN || argv.iter().any(|a| cost(a) > MAX_ARG_STRLEN);
+                if over_s || over_kernel {
+                    own_error = Some("argument-too-large");
+                    break;
                 }
                 planned.push(argv);
                 e.ranges.push((i, i + 1));
